@@ -133,3 +133,30 @@ func init() {
 		return out
 	}
 }
+
+// obsPrint runs `knut print`
+func obsPrint(in string) string {
+	_, jS := splitInput(in)
+	j := DecodeJournal(jS)
+	var out string
+	withTempDir(func(dir string) {
+		f := writeFile(dir, "journal.knut", j.Text())
+		out = renderRun(runKnut(knutBin(), dir, nil, 20*time.Second, "print", f))
+	})
+	return out
+}
+
+func init() {
+	observers["core.print"] = obsPrint
+	gens["coreprint"] = func(out *caseWriter, seed uint64, n int, args []string) error {
+		var items []caseIn
+		for i := 0; i < n; i++ {
+			r := newRng(seed, "coreprint", i)
+			o := defaultOpts(r)
+			j := genJournal(r, o)
+			items = append(items, caseIn{fmt.Sprintf("coreprint-%d-%d", seed, i), "core.print", "- | " + j.Enc()})
+		}
+		out.addBatch(items)
+		return nil
+	}
+}
